@@ -33,6 +33,30 @@ func enumPaths(fn *ssa.Function) (paths []*Path, overflow bool) {
 	count := map[*ssa.BasicBlock]int{}
 	var blocks []*ssa.BasicBlock
 	var lits []PLit
+	// facts established by the branches taken so far, used to prune contradictory (infeasible) continuations:
+	// the same value (after resolving phis along the path) tested again with the opposite outcome.
+	type factKey struct {
+		v    ssa.Value
+		kind string
+	}
+	facts := map[factKey]bool{}
+	factOf := func(l Lit) (factKey, bool, bool) {
+		cur := &Path{Fn: fn, Blocks: blocks}
+		at := len(blocks) - 1
+		if x, eq, ok := l.nilTest(); ok {
+			return factKey{cur.eval(x, at), "nil"}, eq, true
+		}
+		if op, x, y, ok := l.cmp(); ok && (op == token.EQL || op == token.NEQ) {
+			if c, isC := stripConv(y).(*ssa.Const); isC && c.Value != nil {
+				return factKey{cur.eval(x, at), "==" + c.Value.ExactString()}, op == token.EQL, true
+			}
+			return factKey{}, false, false
+		}
+		if _, isBin := l.Cond.(*ssa.BinOp); isBin {
+			return factKey{}, false, false
+		}
+		return factKey{cur.eval(l.Cond, at), "true"}, l.Pos, true
+	}
 	var rec func(b *ssa.BasicBlock)
 	rec = func(b *ssa.BasicBlock) {
 		if overflow {
@@ -61,11 +85,32 @@ func enumPaths(fn *ssa.Function) (paths []*Path, overflow bool) {
 		}
 		for _, s := range b.Succs {
 			n := len(lits)
+			var added *factKey
 			if l, ok := edgeLit(b, s); ok {
+				if k, truth, ok := factOf(l); ok {
+					if k.kind == "nil" && truth && (loadedGlobal(k.v) != nil || isMakeInterface(k.v)) {
+						continue // package-level error values and freshly boxed values are never nil
+					}
+					if k.kind == "nil" && !truth && isNil(k.v) {
+						continue
+					}
+					if prev, known := facts[k]; known {
+						if prev != truth {
+							continue // contradicts a branch already taken on this path
+						}
+					} else if _, isPhi := k.v.(*ssa.Phi); !isPhi {
+						facts[k] = truth
+						kk := k
+						added = &kk
+					}
+				}
 				lits = append(lits, PLit{l, len(blocks) - 1})
 			}
 			rec(s)
 			lits = lits[:n]
+			if added != nil {
+				delete(facts, *added)
+			}
 		}
 	}
 	rec(fn.Blocks[0])
@@ -265,4 +310,9 @@ func plainDelta(in ssa.Instruction, f *types.Var) (int64, bool) {
 		return -d, true
 	}
 	return 0, false
+}
+
+func isMakeInterface(v ssa.Value) bool {
+	_, ok := v.(*ssa.MakeInterface)
+	return ok
 }
